@@ -250,7 +250,7 @@ def run(run, tier, seed, replay_case=None):
 
     rng = random.Random(seed * 7919 + 25)
     corpus = C.load_corpus(PROP)
-    n = 2500 if tier == "quick" else 60000
+    n = 2500 if tier == "quick" else 80000
     cases = list(corpus) + exhaustive_small() + [gen_case(rng, tier) for _ in range(n)]
     if replay_case is not None:
         cases = [replay_case]
@@ -263,19 +263,26 @@ def run(run, tier, seed, replay_case=None):
     # shrink the failing histories here, a whole round of candidates per run of the drivers (the framework's shrinker
     # starts the sanitised driver once per candidate), then let the framework judge the shrunk cases
     fails = [i for i in range(len(cases)) if D.fails_spec(I[i], S[i])]
+
+    def first_diff(i):
+        """the operation whose observation differs first (D = only the final value differs)"""
+        a, b, toks = I[i][2:].split(";"), S[i][2:].split(";"), cases[i].split()
+        for n, (x, y) in enumerate(zip(a, b)):
+            if x != y:
+                return toks[n][0] if n < len(toks) else "D"
+        return "?"
     groups = {}
     for i in fails:
-        key = tuple(sorted(set(t[0] for t in cases[i].split())))
-        groups.setdefault(key, []).append(i)
+        groups.setdefault(first_diff(i), []).append(i)
     picked = []
-    for key in sorted(groups, key=lambda k: len(cases[groups[k][0]])):
-        picked += groups[key][:2]
+    for key in sorted(groups):
+        picked += sorted(groups[key], key=lambda i: len(cases[i]))[:2]
 
     def still(cs):
         i1, r1, s1 = D.eval(cs, parallel=False)
         return [D.fails_spec(a, b) for a, b in zip(i1, s1)]
     shrunk = {}
-    for i in sorted(picked, key=lambda i: len(cases[i]))[:8]:
+    for i in picked[:10]:
         small = shrink_history(cases[i], still)
         if small != cases[i]:
             i1, r1, s1 = D.eval([small], parallel=False)
